@@ -344,6 +344,7 @@ fn main() {
             let v: Value = serde_json::from_str(r).unwrap();
             if v["mode"] == "misuse" && v.get("wrong_lengths").is_some() {
                 misuse::NS.store(v["samples"].as_u64().unwrap_or(4) as usize, std::sync::atomic::Ordering::Relaxed);
+                misuse::KIND.store(if v["basis_functions"].as_u64().unwrap_or(3) == 1 { 1 } else { 0 }, std::sync::atomic::Ordering::Relaxed);
                 let env: Vec<(usize, usize)> = v["wrong_lengths"].as_array().unwrap().iter().map(|e| (e["slot"].as_u64().unwrap() as usize, e["len"].as_u64().unwrap() as usize)).collect();
                 let seq: Vec<misuse::Op> = v["ops"].as_array().unwrap().iter().map(misuse::op_parse).collect();
                 match guarded(|| misuse::run(&env, &seq)) {
@@ -774,6 +775,15 @@ mod misuse {
     }
     pub const P: usize = 2;
     pub const GOOD: usize = usize::MAX;
+    /// 0: three basis functions (f0(a), f1(b, a), invariant);  1: ONE basis function only (f1(b, a)) - a model whose
+    /// evaluation is a single column
+    pub static KIND: AtomicUsize = AtomicUsize::new(0);
+    pub fn single() -> bool {
+        KIND.load(Ordering::Relaxed) == 1
+    }
+    pub fn ncols() -> usize {
+        if single() { 1 } else { 3 }
+    }
     /// slots: 0 f0, 1 f1, 2 f2(invariant), 3 d f0/da, 4 d f1/db, 5 d f1/da
     pub struct Env {
         pub bad: [AtomicUsize; 6],
@@ -791,6 +801,16 @@ mod misuse {
     }
     pub fn build(env: Arc<Env>) -> SeparableModel<f64> {
         let (e0, e1, e2, e3, e4, e5) = (env.clone(), env.clone(), env.clone(), env.clone(), env.clone(), env.clone());
+        if single() {
+            return SeparableModelBuilder::<f64>::new(["a", "b"])
+                .function(["b", "a"], move |x: &DVector<f64>, b: f64, a: f64| out(&e1, 1, x.map(|v| v * b + a)))
+                .partial_deriv("b", move |x: &DVector<f64>, _b: f64, _a: f64| out(&e4, 4, x.clone()))
+                .partial_deriv("a", move |x: &DVector<f64>, _b: f64, _a: f64| out(&e5, 5, x.map(|_| 1.0)))
+                .independent_variable(xv())
+                .initial_parameters(vec![2.0, 5.0])
+                .build()
+                .expect("misuse model builds");
+        }
         SeparableModelBuilder::<f64>::new(["a", "b"])
             .function(["a"], move |x: &DVector<f64>, a: f64| out(&e0, 0, x.map(|v| v * a)))
             .partial_deriv("a", move |x: &DVector<f64>, _a: f64| out(&e3, 3, x.clone()))
@@ -805,6 +825,9 @@ mod misuse {
     }
     fn ref_eval(a: &[f64]) -> DMatrix<f64> {
         let x = xv();
+        if single() {
+            return DMatrix::from_fn(n(), 1, |i, _| x[i] * a[1] + a[0]);
+        }
         DMatrix::from_fn(n(), 3, |i, j| match j {
             0 => x[i] * a[0],
             1 => x[i] * a[1] + a[0],
@@ -813,6 +836,9 @@ mod misuse {
     }
     fn ref_deriv(k: usize) -> DMatrix<f64> {
         let x = xv();
+        if single() {
+            return DMatrix::from_fn(n(), 1, |i, _| if k == 0 { 1.0 } else { x[i] });
+        }
         DMatrix::from_fn(n(), 3, |i, j| match (k, j) {
             (0, 0) => x[i],
             (0, 1) => 1.0,
@@ -932,14 +958,14 @@ mod misuse {
                     Err(e) => return Err(("wrong-error-for-parameter-count".into(), format!("{}: {:?}", at, e))),
                 },
                 Op::Eval => {
-                    let bads: Vec<usize> = (0..3).filter_map(|s| badlen(s)).collect();
+                    let bads: Vec<usize> = (if single() { 1..2 } else { 0..3 }).filter_map(|s| badlen(s)).collect();
                     match m.eval() {
                         Ok(mat) => {
                             if !bads.is_empty() {
                                 return Err(("mis-shaped-output-accepted".into(), format!("{}: basis functions returned vectors of length {:?} instead of {} but eval() returned Ok({}x{})", at, bads, n(), mat.nrows(), mat.ncols())));
                             }
                             let want = ref_eval(&cur);
-                            if mat.nrows() != n() || mat.ncols() != 3 || mat.iter().zip(want.iter()).any(|(a, b)| a.to_bits() != b.to_bits()) {
+                            if mat.nrows() != n() || mat.ncols() != ncols() || mat.iter().zip(want.iter()).any(|(a, b)| a.to_bits() != b.to_bits()) {
                                 return Err(("evaluation-changed".into(), format!("{}: eval() = {:?}, expected {:?} for parameters {:?}", at, mat.as_slice(), want.as_slice(), cur)));
                             }
                         }
@@ -949,7 +975,7 @@ mod misuse {
                 }
                 Op::D(k) => {
                     let slots: Vec<usize> = match k {
-                        0 => vec![3, 5],
+                        0 => if single() { vec![5] } else { vec![3, 5] },
                         1 => vec![4],
                         _ => vec![],
                     };
@@ -963,7 +989,7 @@ mod misuse {
                                 return Err(("mis-shaped-output-accepted".into(), format!("{}: derivatives returned vectors of length {:?} instead of {} but the call returned Ok", at, bads, n())));
                             }
                             let want = ref_deriv(*k);
-                            if mat.nrows() != n() || mat.ncols() != 3 || mat.iter().zip(want.iter()).any(|(a, b)| a.to_bits() != b.to_bits()) {
+                            if mat.nrows() != n() || mat.ncols() != ncols() || mat.iter().zip(want.iter()).any(|(a, b)| a.to_bits() != b.to_bits()) {
                                 return Err(("evaluation-changed".into(), format!("{}: derivative = {:?}, expected {:?}", at, mat.as_slice(), want.as_slice())));
                             }
                         }
@@ -1074,13 +1100,14 @@ pub fn mode_misuse(ctx: &Arc<Ctx>) {
     let mut idx = 0u64;
     let (mut seqs, mut steps) = (0u64, 0u64);
     let mut nenvs = 0usize;
-    for nsamples in [4usize, 1, 0] {
+    for (kind, nsamples) in [(0usize, 4usize), (0, 1), (0, 0), (1, 4), (1, 0)] {
+    misuse::KIND.store(kind, std::sync::atomic::Ordering::Relaxed);
     misuse::NS.store(nsamples, std::sync::atomic::Ordering::Relaxed);
     let ops = misuse::ops();
     let envs = misuse::environments();
     nenvs += envs.len();
     for env in &envs {
-        for len in 1..=(if nsamples == 4 { depth } else { depth.min(3) }) {
+        for len in 1..=(if nsamples == 4 && kind == 0 { depth } else { depth.min(3) }) {
             let total = (ops.len() as u64).pow(len as u32);
             let mut start = 0u64;
             while start < total {
@@ -1097,7 +1124,7 @@ pub fn mode_misuse(ctx: &Arc<Ctx>) {
                         }
                         seqs += 1;
                         let r = guarded(|| misuse::run(env, &seq));
-                        let case = || json!({"mode": "misuse", "samples": nsamples, "wrong_lengths": env.iter().map(|(s, l)| json!({"slot": s, "len": l})).collect::<Vec<_>>(), "ops": seq.iter().map(misuse::op_json).collect::<Vec<_>>()});
+                        let case = || json!({"mode": "misuse", "samples": nsamples, "basis_functions": if kind == 1 { 1 } else { 3 }, "wrong_lengths": env.iter().map(|(s, l)| json!({"slot": s, "len": l})).collect::<Vec<_>>(), "ops": seq.iter().map(misuse::op_json).collect::<Vec<_>>()});
                         match r {
                             Ok(Ok(n)) => steps += n,
                             Ok(Err((sig, d))) => ctx.with(|s| s.violate("C17", &sig, case(), d)),
